@@ -309,6 +309,97 @@ fn judge_triple(rec: &mut Rec, y: i64, m: u32, d: u32, also_datetime: bool) {
     }
 }
 
+/// "Constructing from any triple" is not only from_ymd: a text with a year, a month and a day field is a triple too.
+/// Every text constructor gets the triple written out — Date::from_str (yyyy-MM-dd), Date::parse / DateTime::parse with
+/// numeric fields, parse_rfc3339 / DateTime::from_str (years 0000–9999) — and must land on the triple's day or refuse
+/// (year 0 included: there is no year 0).  Which error kind a text route reports is not judged.
+fn judge_triple_text(rec: &mut Rec, y: i64, m: u32, d: u32) {
+    use std::str::FromStr;
+    if !(0..=99).contains(&m) || !(0..=99).contains(&d) {
+        return;
+    }
+    let exp = expect_triple(y, m, d);
+    let cls = triple_class(y, m, d);
+    rec.bin("triples/through-text-constructors");
+    let ytxt = if y < 0 { format!("-{:04}", -y) } else { format!("{:04}", y) };
+    let iso = format!("{}-{:02}-{:02}", ytxt, m, d);
+    let mut routes: Vec<(&'static str, Result<Result<i64, String>, Panic>)> = vec![];
+    let day_of = |ts: i64| ts.div_euclid(86_400) + cal::DAYS_TO_1970;
+    routes.push(("Date::from_str(yyyy-MM-dd)", trap(|| Date::from_str(&iso).map(|x| day_of(x.timestamp())).map_err(|e| e.to_string()))));
+    routes.push(("Date::parse(y-M-d)", trap(|| Date::parse(&format!("{}-{}-{}", y, m, d), "y-M-d").map(|x| day_of(x.timestamp())).map_err(|e| e.to_string()))));
+    routes.push(("DateTime::parse(yyyy-MM-dd HH:mm)", trap(|| DateTime::parse(&format!("{} 00:00", iso), "yyyy-MM-dd HH:mm").map(|x| day_of(x.timestamp())).map_err(|e| e.to_string()))));
+    if (0..=9999).contains(&y) {
+        let rfc = format!("{:04}-{:02}-{:02}T00:00:00Z", y, m, d);
+        routes.push(("DateTime::parse_rfc3339", trap(|| DateTime::parse_rfc3339(&rfc).map(|x| day_of(x.timestamp())).map_err(|e| e.to_string()))));
+        let rfc2 = format!("{:04}-{:02}-{:02}T12:30:00+00:00", y, m, d);
+        routes.push(("DateTime::from_str", trap(|| DateTime::from_str(&rfc2).map(|x| day_of(x.timestamp())).map_err(|e| e.to_string()))));
+    }
+    for (route, r) in routes {
+        rec.eval();
+        rec.api("text constructors (triple written out)");
+        match (r, exp) {
+            (Err(p), _) => rec.violation(format!("C01|triples-as-text|{}|panic|{},{}", route, p.class, p.site()), || json!({"ymd": [y, m, d], "text": iso, "panic": p.to_json()})),
+            (Ok(Ok(n)), Some(e)) if n == e => {}
+            (Ok(Ok(n)), Some(e)) => rec.violation(format!("C01|triples-as-text|{}|wrong-day", route), || json!({"ymd": [y, m, d], "text": iso, "expected_day": e, "observed_day": n})),
+            (Ok(Ok(n)), None) => rec.violation(format!("C01|triples-as-text|{}|accepted-invalid|{}", route, cls), || json!({"ymd": [y, m, d], "text": iso, "class": cls, "observed_day": n, "reads_as": format!("{:?}", cal::ymd(n))})),
+            // a valid date may be outside what the text form can carry (e.g. partly representable end years): not judged
+            (Ok(Err(_)), _) => {}
+        }
+    }
+}
+
+/// One value, one date: however a DateTime came about, as_ymd(), (year(), month(), day()), format("y M d"), as_ymdhms
+/// and Date::from(value) name the same day, and the time of day is inside the day.  Values built by parse from texts
+/// in which several fields feed one component (fraction fields piling up past 23:59:59, 12-hour fields, day of year next
+/// to month and day) are the construction route where a sum can overflow the day without anything being refused.
+fn judge_one_date(rec: &mut Rec, rng: &mut Rng) {
+    use astrolabe::TimeUtilities;
+    rec.eval();
+    rec.api("DateTime::parse → as_ymd/year/month/day/format/Date::from");
+    let y = rng.range_i64(-3000, 3000);
+    let y = if y == 0 { 1 } else { y };
+    let (m, d) = (1 + rng.below(12) as u32, 1 + rng.below(28) as u32);
+    let late = rng.chance(2, 3);
+    let (h, mi, s) = if late { (23u32, 59u32, 59u32) } else { (rng.below(24) as u32, rng.below(60) as u32, rng.below(60) as u32) };
+    let frac = |rng: &mut Rng, digits: u32| -> String {
+        let max = 10u64.pow(digits) - 1;
+        let v = match rng.below(3) { 0 => max, 1 => max - rng.below(3).min(max), _ => rng.below(max + 1) };
+        format!("{:0w$}", v, w = digits as usize)
+    };
+    let widths: Vec<(usize, u32)> = vec![(1, 1), (2, 2), (3, 3), (4, 6), (5, 9)];
+    let k = 1 + rng.below(5) as usize;
+    let mut pat = String::from("y-M-d H:m:s");
+    let mut text = format!("{}-{}-{} {}:{}:{}", y, m, d, h, mi, s);
+    for _ in 0..k {
+        let (w, digits) = *rng.pick(&widths);
+        pat.push(' ');
+        for _ in 0..w {
+            pat.push('n');
+        }
+        text.push(' ');
+        text.push_str(&frac(rng, digits));
+    }
+    rec.bin(if late { "one-date/parse-pile-up-late-in-the-day" } else { "one-date/parse-pile-up" });
+    rec.nontrivial(hash_str(&text) ^ hash_str(&pat));
+    let r = trap(|| DateTime::parse(&text, &pat).ok().map(|v| {
+        let fd = v.format("y M d");
+        let dd = Date::from(v).as_ymd();
+        (v.as_ymd(), (v.year(), v.month(), v.day()), fd, dd, v.as_ymdhms(), (v.hour(), v.minute(), v.second()))
+    }));
+    match r {
+        Err(p) => rec.violation(format!("C01|one-date|DateTime::parse|panic|{},{}", p.class, p.site()), || json!({"text": text, "pattern": pat, "panic": p.to_json()})),
+        Ok(None) => rec.bin("one-date/refused"),
+        Ok(Some((a, g, f, dd, ymdhms, hms))) => {
+            rec.bin("one-date/accepted");
+            let fg = format!("{} {} {}", g.0, g.1, g.2);
+            let ok = a == g && f == fg && dd == g && (ymdhms.0, ymdhms.1, ymdhms.2) == a && ymdhms.3 < 24 && (ymdhms.3, ymdhms.4, ymdhms.5) == hms;
+            if !ok {
+                rec.violation("C01|one-date|DateTime::parse|one-value-reads-as-two-dates".to_string(), || json!({"text": text, "pattern": pat, "as_ymd": format!("{:?}", a), "year/month/day": format!("{:?}", g), "format(y M d)": f, "Date::from": format!("{:?}", dd), "as_ymdhms": format!("{:?}", ymdhms), "hour/minute/second": format!("{:?}", hms)}));
+            }
+        }
+    }
+}
+
 pub fn run(ctx: &Ctx) -> PropResult {
     let years = year_set(ctx);
     let mut wls: Vec<Workload> = Vec::new();
@@ -388,6 +479,22 @@ pub fn run(ctx: &Ctx) -> PropResult {
         let d = if rng.chance(1, 16) { rng.next() as u32 } else { rng.below(33) as u32 };
         judge_triple(rec, y, m, d, rng.chance(1, 8));
     }));
+    // the triple written out as text, through every text constructor: years −20…20 (year 0!), 1580…2110, 9990…10010 and
+    // random years x month 0..=13 x day 0..=32
+    wls.push(Workload::cases("triples_through_text_constructors", ctx.count(700, 20_000), move |rec, idx, rng| {
+        let y = match idx % 4 {
+            0 => (idx / 4 % 41) as i64 - 20,
+            1 => rng.range_i64(1580, 2110),
+            2 => *rng.pick(&[9_990i64, 9_999, 10_000, 10_010, -9_999, -10_000, 99_999, 100_000, 5_879_611, -5_879_611, 5_879_612]),
+            _ => rng.range_i64(-5_879_612, 5_879_612),
+        };
+        for m in 0..=13u32 {
+            for d in [0u32, 1, 15, 28, 29, 30, 31, 32] {
+                judge_triple_text(rec, y, m, d);
+            }
+        }
+    }));
+    wls.push(Workload::cases("one_value_one_date(parse_pile_ups)", ctx.count(60_000, 1_500_000), move |rec, _idx, rng| judge_one_date(rec, rng)));
     // call sequences: a triple, then a neighbour that differs in one or two components (adjacent year, month
     // 0/13/±1, same day) — what a "last month"/"last year" memo keyed by year·12+month or by a year range confuses;
     // and a day followed by days a whole number of years / 400-year cycles / 2^j days away (then the first again)
@@ -455,8 +562,9 @@ pub fn run(ctx: &Ctx) -> PropResult {
         "feb29/BC/div4", "feb29/BC/div400", "feb29/AD/div4", "feb29/AD/div400", "feb28/common", "feb28/div100",
         "month-first/BC", "month-last/AD", "range-end/first-day", "range-end/last-day", "era-boundary-day",
         "triple/valid", "triple/year0", "triple/month-out", "triple/day-not-in-month", "triple/below-range", "triple/above-range",
-        "triple/valid-partial-end-year",
+        "triple/valid-partial-end-year", "triples/through-text-constructors", "one-date/parse-pile-up-late-in-the-day", "one-date/accepted",
     ];
+    meta.rule.push_str(" Triples written out as text through Date::from_str, Date::parse, DateTime::parse, parse_rfc3339 and DateTime::from_str (year 0 and years around 10^4 included): the triple's day or a refusal. One value, one date: DateTimes parsed from texts whose fraction fields pile up late in the day must read as the same date through as_ymd, year/month/day, format, as_ymdhms and Date::from, with a time of day inside the day.");
     if full {
         meta.required_bins.push("exhaustive-triples/valid");
         meta.required_bins.push("exhaustive-triples/refused");
